@@ -1169,7 +1169,8 @@ void reb_calculate_acceleration_var(struct reb_simulation* r){
                             particles_var2[i].ay = 0.; 
                             particles_var2[i].az = 0.; 
                         }
-                        for (int i=0; i<_N_real; i++){
+                        // Test particles (i>=_N_active) feel active particles but do not act on any particle.
+                        for (int i=0; i<_N_active; i++){
                         for (int j=i+1; j<_N_real; j++){
                             // TODO: Need to implement WH skipping
                             //if (_gravity_ignore_terms==1 && ((j==1 && i==0) || (i==1 && j==0))) continue;
@@ -1231,6 +1232,7 @@ void reb_calculate_acceleration_var(struct reb_simulation* r){
                             const double dk2Gmi = G * particles_var1b[i].m;
                             const double dk2Gmj = G * particles_var1b[j].m;
 
+                            if (j<_N_active){
                             particles_var2[i].ax += Gmj * dax 
                                 - ddGmj*r3inv*dx 
                                 - dk2Gmj*r3inv*dk1dx + 3.*dk2Gmj*r5inv*dx*rdk1
@@ -1243,6 +1245,7 @@ void reb_calculate_acceleration_var(struct reb_simulation* r){
                                 - ddGmj*r3inv*dz
                                 - dk2Gmj*r3inv*dk1dz + 3.*dk2Gmj*r5inv*dz*rdk1
                                 - dk1Gmj*r3inv*dk2dz + 3.*dk1Gmj*r5inv*dz*rdk2;
+                            }
                                                                                  
                             particles_var2[j].ax -= Gmi * dax 
                                 - ddGmi*r3inv*dx
